@@ -406,6 +406,14 @@ func newWorld(o worldOpts) (*World, error) {
 	}
 	kv.noMig, kv.query2 = o.noMig, o.query2
 	w.be[0] = kv
+	if o.noMig {
+		// the database was initialised by an earlier (migrating) instance; the store
+		// object under test is opened WithNoMigration(true) from the start
+		if err := kv.reopen(); err != nil {
+			w.closeKV()
+			return nil, err
+		}
+	}
 	var h *sqlHandle
 	if o.pool != nil {
 		h, err = o.pool.get(o.worker)
